@@ -14,23 +14,23 @@ def c16(tier):
     runs = []
     if tier == "quick":
         for i, t in enumerate(TOPOS_QUICK):
-            runs.append(H("c16_pstl", "plain", 1500, t, timeout_per_case=20, params=dict(salt=2 * i)))
-            runs.append(H("c16_pstl", "asan", 500, t, timeout_per_case=40, params=dict(salt=2 * i + 1)))
+            runs.append(H("c16_pstl", "plain", 1000, t, timeout_per_case=20, params=dict(salt=2 * i)))
+            runs.append(H("c16_pstl", "asan", 350, t, timeout_per_case=40, params=dict(salt=2 * i + 1)))
         # 48 pool threads: the only way to reach partial_sum's empty trailing blocks (boost = partial_sum)
-        runs.append(H("c16_pstl", "plain", 250, "12,12,12,12", timeout_per_case=60,
+        runs.append(H("c16_pstl", "plain", 150, "12,12,12,12", timeout_per_case=60,
                       params=dict(maxn=20000, boost=6, salt=20)))
     else:
         for i, t in enumerate([None, "8,8", "4,4,4,4", "3,5", "1,1,1,1", "smt:2x2x2"]):
-            runs.append(H("c16_pstl", "plain", 12000, t, timeout_per_case=20, params=dict(salt=2 * i)))
-            runs.append(H("c16_pstl", "asan", 3000, t, timeout_per_case=40, params=dict(salt=2 * i + 1)))
-        runs.append(H("c16_pstl", "plain", 1500, "12,12,8", timeout_per_case=60, params=dict(maxn=20000, salt=20)))
-        runs.append(H("c16_pstl", "plain", 1500, "12,12,12,12", timeout_per_case=60,
+            runs.append(H("c16_pstl", "plain", 5000, t, timeout_per_case=20, params=dict(salt=2 * i)))
+            runs.append(H("c16_pstl", "asan", 1200, t, timeout_per_case=40, params=dict(salt=2 * i + 1)))
+        runs.append(H("c16_pstl", "plain", 1000, "12,12,8", timeout_per_case=60, params=dict(maxn=20000, salt=20)))
+        runs.append(H("c16_pstl", "plain", 1000, "12,12,12,12", timeout_per_case=60,
                       params=dict(maxn=20000, boost=6, salt=21)))
         # threads >> CPUs: arbitrary-point preemption between the block claims
-        runs.append(H("c16_pstl", "plain", 600, "12,12,8", cpus=4, timeout_per_case=120,
+        runs.append(H("c16_pstl", "plain", 400, "12,12,8", cpus=4, timeout_per_case=120,
                       params=dict(maxn=20000, salt=22)))
-        runs.append(H("c16_pstl", "tsan", 1200, None, timeout_per_case=90, env=TSAN_ENV, params=dict(salt=30)))
-        runs.append(H("c16_pstl", "tsan", 1200, "4,4,4,4", timeout_per_case=90, env=TSAN_ENV, params=dict(salt=31)))
+        runs.append(H("c16_pstl", "tsan", 1000, None, timeout_per_case=90, env=TSAN_ENV, params=dict(salt=30)))
+        runs.append(H("c16_pstl", "tsan", 1000, "4,4,4,4", timeout_per_case=90, env=TSAN_ENV, params=dict(salt=31)))
     return runs
 
 
@@ -67,7 +67,8 @@ SPEC = dict(
              "parallel_path_cases": 300, "multi_thread_cases": 150, "multi_socket_cases": 50,
              "delays_injected": 1000, "find_if_cases_with_match": 10, "find_if_cases_without_match": 3,
              "partition_serial_cleanup_calls": 1000, "sort_unstable_adjacent_pairs": 1,
-             "partial_sum_cases_with_empty_blocks": 1},
+             "partial_sum_cases_with_empty_blocks": 1, "partition_no_leftover_cases": 5,
+             "partition_cases_2plus_threads_claimed_blocks": 100, "partition_cases_4plus_threads_claimed_blocks": 5},
     assumptions=["std:: algorithms of libstdc++ are the reference",
                  "binary operations given to accumulate/map_reduce are associative and commutative and the identity "
                  "argument is their identity (Reducible's documented contract); floating-point inputs are exactly summable",
